@@ -14,6 +14,8 @@
 -/
 import Sipsp.Proofs.CapacityExtra
 import Sipsp.Proofs.HdrSpec
+import Sipsp.Proofs.AuditFixC
+import Sipsp.Proofs.FieldsLo
 
 namespace Sipsp
 
@@ -275,5 +277,199 @@ example : (exRun 0 0).2.2.pv.contacts.getContact 0 = some (exRun 7 5).2.2.pv.con
   have hr := lo2_MsgDoneX_reference hD (by omega)
   rw [hn, hn2, hs] at hr
   exact ⟨hr.1 (by omega), hr.2 (by omega)⟩
+
+/-! ## (2) C05: the per-line counts of `AfcAssoc` are unique when every line and every value is stored -/
+
+theorem lo2_start_succ (cnt : List Nat) (i : Nat) (h : i < cnt.length) :
+    hxStart cnt (i + 1) = hxStart cnt i + cnt[i] := by
+  unfold hxStart
+  rw [List.take_add_one, List.sum_append]
+  simp [h]
+
+/-- two lists with the same length and the same cumulative sums are equal -/
+theorem lo2_eq_of_starts (cnt cnt' : List Nat) (hl : cnt.length = cnt'.length)
+    (hs : ∀ i, i ≤ cnt.length → hxStart cnt i = hxStart cnt' i) : cnt = cnt' := by
+  apply List.ext_getElem hl
+  intro i h1 h2
+  have a := lo2_start_succ cnt i h1
+  have b := lo2_start_succ cnt' i h2
+  have c := hs i (by omega)
+  have d := hs (i + 1) (by omega)
+  omega
+
+/-- abstract core: `P i k` = "value `k` lies in line `i`"; if no value lies in two consecutive lines, the block
+    decomposition (positive counts, same total) is unique -/
+theorem lo2_counts_unique_core (P : Nat → Nat → Prop) (H n : Nat) (cnt cnt' : List Nat)
+    (l1 : cnt.length = H) (l2 : cnt'.length = H) (p1 : ∀ c ∈ cnt, 0 < c) (p2 : ∀ c ∈ cnt', 0 < c)
+    (s1 : cnt.sum = n) (s2 : cnt'.sum = n)
+    (B1 : ∀ i, i < H → ∀ k, hxStart cnt i ≤ k → k < hxStart cnt (i + 1) → P i k)
+    (B2 : ∀ i, i < H → ∀ k, hxStart cnt' i ≤ k → k < hxStart cnt' (i + 1) → P i k)
+    (D : ∀ i k, P i k → ¬ P (i + 1) k) : cnt = cnt' := by
+  apply lo2_eq_of_starts cnt cnt' (by omega)
+  intro i
+  induction i with
+  | zero => intro _; rfl
+  | succ i ih =>
+    intro hi
+    have e := ih (by omega)
+    have hi1 : i < cnt.length := by omega
+    have hi2 : i < cnt'.length := by omega
+    have a := lo2_start_succ cnt i hi1
+    have b := lo2_start_succ cnt' i hi2
+    have pa : 0 < cnt[i] := p1 _ (List.getElem_mem hi1)
+    have pb : 0 < cnt'[i] := p2 _ (List.getElem_mem hi2)
+    have t1 : hxStart cnt (i + 1) ≤ n := by rw [← s1]; exact hxStart_le cnt (i + 1)
+    have t2 : hxStart cnt' (i + 1) ≤ n := by rw [← s2]; exact hxStart_le cnt' (i + 1)
+    have f1 : hxStart cnt cnt.length = n := by rw [hxStart_length]; exact s1
+    have f2 : hxStart cnt' cnt'.length = n := by rw [hxStart_length]; exact s2
+    rcases Nat.lt_trichotomy cnt[i] cnt'[i] with hlt | heq | hgt
+    · -- the value `k = start (i+1)` of `cnt` is in block `i` of `cnt'` and in block `i+1` of `cnt`
+      exfalso
+      have hi3 : i + 1 < cnt.length := by
+        apply Nat.lt_of_le_of_ne hi
+        intro h; rw [h] at a; omega
+      have a' := lo2_start_succ cnt (i + 1) hi3
+      have pa' : 0 < cnt[i + 1] := p1 _ (List.getElem_mem hi3)
+      exact D i (hxStart cnt (i + 1)) (B2 i (by omega) _ (by omega) (by omega))
+        (B1 (i + 1) (by omega) _ (Nat.le_refl _) (by omega))
+    · omega
+    · exfalso
+      have hi3 : i + 1 < cnt'.length := by
+        apply Nat.lt_of_le_of_ne (by omega)
+        intro h; rw [h] at b; omega
+      have b' := lo2_start_succ cnt' (i + 1) hi3
+      have pb' : 0 < cnt'[i + 1] := p2 _ (List.getElem_mem hi3)
+      exact D i (hxStart cnt' (i + 1)) (B1 i (by omega) _ (by omega) (by omega))
+        (B2 (i + 1) (by omega) _ (Nat.le_refl _) (by omega))
+
+/-- the `val` spans of the accepted lines are in buffer order without overlap (a later line has an empty `val` or its
+    `val` starts at or after the end of the `val` of every earlier line) -/
+def lo2Apart (gs : List Hdr) : Prop :=
+  ∀ j k, j < k → k < gs.length → gs[k]!.val.len = 0 ∨ gs[j]!.val.offs + gs[j]!.val.len ≤ gs[k]!.val.offs
+
+/-- no non-empty value lies inside the `val` of two different lines -/
+theorem lo2Apart.disjoint {gs : List Hdr} (A : lo2Apart gs) {j k : Nat} (hjk : j < k) (hk : k < gs.length)
+    {v : PField} (h1 : PlIn gs[j]!.val v) (h2 : PlIn gs[k]!.val v) : False := by
+  obtain ⟨a1, a2, a3⟩ := h1
+  obtain ⟨_, b2, b3⟩ := h2
+  rcases A j k hjk hk with h | h <;> omega
+
+theorem lo2_hxIdx_sorted (ty : Nat) (tyOf : Nat → Nat) (N : Nat) : (hxIdx ty tyOf N).Pairwise (· < ·) := by
+  unfold hxIdx
+  exact List.Pairwise.filter _ List.pairwise_lt_range
+
+theorem lo2_afcIdx_lt_succ {ty : Nat} {gs : List Hdr} {i j j' : Nat} (h1 : (afcIdx ty gs)[i]? = some j)
+    (h2 : (afcIdx ty gs)[i + 1]? = some j') : j < j' := by
+  have hs := lo2_hxIdx_sorted ty (fun j => gs[j]!.type) gs.length
+  rw [List.pairwise_iff_getElem] at hs
+  obtain ⟨a1, a2⟩ := List.getElem?_eq_some_iff.1 h1
+  obtain ⟨b1, b2⟩ := List.getElem?_eq_some_iff.1 h2
+  have := hs i (i + 1) a1 b1 (by omega)
+  unfold afcIdx at a2 b2
+  rw [a2, b2] at this
+  exact this
+
+/-- **the counts of `AfcAssoc` are unique** when the `val` spans of the lines do not overlap and every value counted is
+    stored (`n ≤ vals.size`): two count lists that satisfy the conjuncts of `AfcAssoc` for the same object are equal -/
+theorem lo2_counts_unique {ty : Nat} {gs : List Hdr} {vals : Array PFromBody} {n hNo : Nat} (A : lo2Apart gs)
+    (hall : n ≤ vals.size) (hidx : (afcIdx ty gs).length = hNo) (cnt cnt' : List Nat)
+    (l1 : cnt.length = hNo) (l2 : cnt'.length = hNo) (p1 : ∀ c ∈ cnt, 0 < c) (p2 : ∀ c ∈ cnt', 0 < c)
+    (s1 : cnt.sum = n) (s2 : cnt'.sum = n) (B1 : AfcBlocks ty gs vals cnt) (B2 : AfcBlocks ty gs vals cnt') :
+    cnt = cnt' := by
+  apply lo2_counts_unique_core
+    (fun i k => ∃ j, (afcIdx ty gs)[i]? = some j ∧ PlIn gs[j]!.val vals[k]!.v) hNo n cnt cnt' l1 l2 p1 p2 s1 s2
+  · intro i hi k h1 h2
+    have hj : i < (afcIdx ty gs).length := by omega
+    refine ⟨(afcIdx ty gs)[i], List.getElem?_eq_getElem hj, ?_⟩
+    have : hxStart cnt (i + 1) ≤ n := by rw [← s1]; exact hxStart_le cnt (i + 1)
+    exact B1 i _ (List.getElem?_eq_getElem hj) k h1 h2 (by omega)
+  · intro i hi k h1 h2
+    have hj : i < (afcIdx ty gs).length := by omega
+    refine ⟨(afcIdx ty gs)[i], List.getElem?_eq_getElem hj, ?_⟩
+    have : hxStart cnt' (i + 1) ≤ n := by rw [← s2]; exact hxStart_le cnt' (i + 1)
+    exact B2 i _ (List.getElem?_eq_getElem hj) k h1 h2 (by omega)
+  · rintro i k ⟨j, hj, hp⟩ ⟨j', hj', hp'⟩
+    exact A.disjoint (lo2_afcIdx_lt_succ hj hj') (afcIdx_lt hj').1 hp hp'
+
+/-- the order hypothesis follows from the order of the STORED headers (`HlsLo`, FieldsLo) when every accepted line is
+    stored -/
+theorem lo2Apart_of_stored {gs : List Hdr} {hl : HdrLst} {s : Nat} (S : AfcStored gs hl) (L : HlsLo s hl)
+    (hall : hl.n ≤ hl.hdrs.size) : lo2Apart gs := by
+  intro j k hjk hk
+  obtain ⟨e, hst⟩ := S
+  rw [e] at hk
+  have hk2 : k < hl.hdrs.size := by omega
+  rw [← hst k hk hk2, ← hst j (by omega) (by omega)]
+  have ho := (L.order j k hjk hk hk2).2
+  have hsp := (L.stored k hk hk2).2.2
+  have ho' : hl.hdrs[j]!.val.offs + hl.hdrs[j]!.val.len ≤ hl.hdrs[k]!.name.offs := ho
+  rcases hsp with h | h
+  · exact Or.inl h
+  · exact Or.inr (by omega)
+
+/-- **message level**: for an object that satisfies the pinned statement `AfcMsg gs m` and the order facts `HlsLo`
+    (both proved for every successful ParseSIPMsg from Init: `afc_values_pinned_init`, `parseSIPMsg_lo_init`), with every
+    accepted header line stored and every contact (resp. identity) value stored, the per-line counts are determined -/
+theorem lo2_msg_counts_unique {gs : List Hdr} {m : PSIPMsg} {s : Nat} (M : AfcMsg gs m) (L : HlsLo s m.hl)
+    (hall : m.hl.n ≤ m.hl.hdrs.size) :
+    (m.pv.contacts.n ≤ m.pv.contacts.vals.size → ∀ cnt cnt' : List Nat,
+      (cnt.length = m.pv.contacts.hNo ∧ (∀ c ∈ cnt, 0 < c) ∧ cnt.sum = m.pv.contacts.n ∧
+        AfcBlocks HdrContact gs m.pv.contacts.vals cnt) →
+      (cnt'.length = m.pv.contacts.hNo ∧ (∀ c ∈ cnt', 0 < c) ∧ cnt'.sum = m.pv.contacts.n ∧
+        AfcBlocks HdrContact gs m.pv.contacts.vals cnt') → cnt = cnt') ∧
+    (m.pv.pais.n ≤ m.pv.pais.vals.size → ∀ cnt cnt' : List Nat,
+      (cnt.length = m.pv.pais.hNo ∧ (∀ c ∈ cnt, 0 < c) ∧ cnt.sum = m.pv.pais.n ∧
+        AfcBlocks HdrPAI gs m.pv.pais.vals cnt) →
+      (cnt'.length = m.pv.pais.hNo ∧ (∀ c ∈ cnt', 0 < c) ∧ cnt'.sum = m.pv.pais.n ∧
+        AfcBlocks HdrPAI gs m.pv.pais.vals cnt') → cnt = cnt') := by
+  have A := lo2Apart_of_stored M.stored L hall
+  obtain ⟨_, hc, _⟩ := M.contacts
+  obtain ⟨_, hp, _⟩ := M.pais
+  exact ⟨fun hn cnt cnt' ⟨a1, a2, a3, a4⟩ ⟨b1, b2, b3, b4⟩ =>
+      lo2_counts_unique A hn hc cnt cnt' a1 b1 a2 b2 a3 b3 a4 b4,
+    fun hn cnt cnt' ⟨a1, a2, a3, a4⟩ ⟨b1, b2, b3, b4⟩ =>
+      lo2_counts_unique A hn hp cnt cnt' a1 b1 a2 b2 a3 b3 a4 b4⟩
+
+/-- **one ParseSIPMsg call from Init, OK, nothing dropped from the header array nor from the contact array**: there is
+    EXACTLY ONE list of per-line counts for the contact values (existence: `afc_values_pinned_init`) -/
+theorem lo2_contact_counts_exists_unique_init (b : Buf) (o : Nat) (m0 : PSIPMsg) (len kh kc : Nat)
+    (hdrs cts : Option Unit) (flags : Nat) (hfit : b.size ≤ 65535) (ho : o ≤ b.size) {o' : Nat} {m' : PSIPMsg}
+    (hr : parseSIPMsg b o (m0.init len (hdrs.map fun _ => Array.replicate kh {}) (cts.map fun _ => Array.replicate kc {}))
+      flags = (o', .ok, m'))
+    (hallH : m'.hl.n ≤ m'.hl.hdrs.size) (hallC : m'.pv.contacts.n ≤ m'.pv.contacts.vals.size) :
+    let gs := afcMsgLines b o (m0.init len (hdrs.map fun _ => Array.replicate kh {}) (cts.map fun _ => Array.replicate kc {}))
+    ∃ cnt : List Nat,
+      (cnt.length = m'.pv.contacts.hNo ∧ (∀ c ∈ cnt, 0 < c) ∧ cnt.sum = m'.pv.contacts.n ∧
+        AfcBlocks HdrContact gs m'.pv.contacts.vals cnt) ∧
+      ∀ cnt' : List Nat, (cnt'.length = m'.pv.contacts.hNo ∧ (∀ c ∈ cnt', 0 < c) ∧ cnt'.sum = m'.pv.contacts.n ∧
+        AfcBlocks HdrContact gs m'.pv.contacts.vals cnt') → cnt' = cnt := by
+  intro gs
+  have M := afc_values_pinned_init b o m0 len kh kc hdrs cts flags hfit ho hr
+  have L := (parseSIPMsg_lo_init b o m0 len kh kc hdrs cts flags hfit ho hr).hl
+  obtain ⟨cnt, c1, c2, c3, c4, c5⟩ := M.contacts
+  exact ⟨cnt, ⟨c2, c3, c4, c5⟩, fun cnt' h' => (lo2_msg_counts_unique M L hallH).1 hallC cnt' cnt h' ⟨c2, c3, c4, c5⟩⟩
+
+/-! tests / non-vacuity for (2): the message of `CapacityExtra.exMsg` (two Contact lines with 2 + 1 values) parsed in
+    one call into arrays of 7 headers / 5 contacts: the hypotheses hold -/
+def lo2ExM : Nat × Err × PSIPMsg :=
+  parseSIPMsg exMsg 0 (({} : PSIPMsg).init 0 ((some ()).map fun _ => Array.replicate 7 {})
+    ((some ()).map fun _ => Array.replicate 5 {})) 0
+
+theorem lo2ExM_facts : lo2ExM.2.1 = Err.ok ∧ lo2ExM.2.2.hl.n ≤ lo2ExM.2.2.hl.hdrs.size ∧
+    lo2ExM.2.2.pv.contacts.n ≤ lo2ExM.2.2.pv.contacts.vals.size ∧ lo2ExM.2.2.pv.contacts.n = 3 ∧
+    lo2ExM.2.2.pv.contacts.hNo = 2 := by decide +kernel
+
+example : ∃ cnt : List Nat, cnt.length = 2 ∧ cnt.sum = 3 ∧
+    ∀ cnt' : List Nat, (cnt'.length = lo2ExM.2.2.pv.contacts.hNo ∧ (∀ c ∈ cnt', 0 < c) ∧
+      cnt'.sum = lo2ExM.2.2.pv.contacts.n ∧
+      AfcBlocks HdrContact (afcMsgLines exMsg 0 (({} : PSIPMsg).init 0 ((some ()).map fun _ => Array.replicate 7 {})
+        ((some ()).map fun _ => Array.replicate 5 {}))) lo2ExM.2.2.pv.contacts.vals cnt') → cnt' = cnt := by
+  have hr0 : lo2ExM = (lo2ExM.1, .ok, lo2ExM.2.2) := by
+    rw [← lo2ExM_facts.1]
+  have hr : parseSIPMsg exMsg 0 (({} : PSIPMsg).init 0 ((some ()).map fun _ => Array.replicate 7 {})
+      ((some ()).map fun _ => Array.replicate 5 {})) 0 = (lo2ExM.1, .ok, lo2ExM.2.2) := hr0
+  obtain ⟨cnt, ⟨a1, _, a3, _⟩, hu⟩ := lo2_contact_counts_exists_unique_init exMsg 0 {} 0 7 5 (some ()) (some ()) 0
+    exMsg_fits.2 (Nat.zero_le _) hr lo2ExM_facts.2.1 lo2ExM_facts.2.2.1
+  exact ⟨cnt, by rw [a1]; exact lo2ExM_facts.2.2.2.2, by rw [a3]; exact lo2ExM_facts.2.2.2.1, hu⟩
 
 end Sipsp
